@@ -318,4 +318,54 @@ def exRunStore : Store :=
   storeOfRun exNm (flattenTList [] (staticProgramT exRun exNm).2) (subROccList [] (staticProgramT exRun exNm).2)
     exRunOracle exRunIdx
 
+/-- TYPED-MAP mode: a pipeline mapped over the typed-map output of a stage (run-time key set), with a
+nested map call over a typed-map literal that mixes the split value with a constant; consumers
+project through the merges -/
+def exRunK : Program :=
+  { structs := []
+    callables :=
+      [ ("GEN", .stage [⟨"n", xInt⟩] [⟨"m", ⟨"int", 1, 0⟩⟩, ⟨"k", xInt⟩]),
+        ("WORK", .stage [⟨"x", xInt⟩, ⟨"k", xInt⟩] [⟨"y", xInt⟩]),
+        ("USEM", .stage [⟨"ys", ⟨"int", 1, 0⟩⟩] [⟨"r", xInt⟩]),
+        ("INNER", .pipeline [⟨"x", xInt⟩, ⟨"k", xInt⟩] [⟨"y", xInt⟩, ⟨"r", xInt⟩]
+          [ { id := "WORK", callee := "WORK", mapped := false, disabled := none,
+              binds := [⟨"x", false, .self "x" []⟩, ⟨"k", false, .self "k" []⟩] },
+            { id := "W2", callee := "WORK", mapped := true, disabled := none,
+              binds := [⟨"x", true, .map [("p", .self "x" []), ("q", .lit (.atom "7"))]⟩,
+                        ⟨"k", false, .ref "WORK" ["y"]⟩] },
+            { id := "USEM", callee := "USEM", mapped := false, disabled := none,
+              binds := [⟨"ys", false, .ref "W2" ["y"]⟩] } ]
+          [("y", .ref "WORK" ["y"]), ("r", .ref "USEM" ["r"])]),
+        ("TOP", .pipeline [⟨"v", xInt⟩] [⟨"ys", ⟨"int", 1, 0⟩⟩, ⟨"rs", ⟨"int", 1, 0⟩⟩]
+          [ { id := "GEN", callee := "GEN", mapped := false, disabled := none,
+              binds := [⟨"n", false, .self "v" []⟩] },
+            { id := "INNER", callee := "INNER", mapped := true, disabled := none,
+              binds := [⟨"x", true, .ref "GEN" ["m"]⟩, ⟨"k", false, .ref "GEN" ["k"]⟩] } ]
+          [("ys", .ref "INNER" ["y"]), ("rs", .ref "INNER" ["r"])]) ]
+    top := { id := "TOP", callee := "TOP", mapped := false, disabled := none,
+             binds := [⟨"v", false, .lit (.atom "5")⟩] } }
+
+def exRunKOracle : Oracle := fun k =>
+  if k.path == ["TOP", "GEN"] then some (.obj [("m", .obj [("a", .atom "5"), ("b", .atom "6")]), ("k", .atom "3")])
+  else if k.path == ["TOP", "INNER", "WORK"] then
+    match k.forks with
+    | [("INNER", .k s)] => some (.obj [("y", .atom ("\"y" ++ s ++ "\""))])
+    | _ => none
+  else if k.path == ["TOP", "INNER", "W2"] then
+    match k.forks with
+    | [("INNER", .k s), ("W2", .k t)] => some (.obj [("y", .atom ("\"" ++ s ++ t ++ "\""))])
+    | _ => none
+  else if k.path == ["TOP", "INNER", "USEM"] then
+    match k.forks with
+    | [("INNER", .k s)] => some (.obj [("r", .atom ("\"r" ++ s ++ "\""))])
+    | _ => none
+  else none
+
+def exRunKIdx : IdxRec := fun k =>
+  if k.path == ["TOP", "INNER"] then [.k "a", .k "b"] else []
+
+def exRunKStore : Store :=
+  storeOfRun exNm (flattenTList [] (staticProgramT exRunK exNm).2) (subROccList [] (staticProgramT exRunK exNm).2)
+    exRunKOracle exRunKIdx
+
 end Proofs.ResolverStatic
